@@ -52,7 +52,8 @@ func genPair(r *vc.Rand) *PairScn {
 	n := r.Intn(5)
 	for i := 0; i < n; i++ {
 		sc.Disturbs = append(sc.Disturbs, Disturb{
-			Kind: vc.Pick(r, []string{"disconnect:A", "disconnect:B", "cut", "cut", "restart:B", "hide:A", "hide:B", "both-disconnect"}),
+			Kind: vc.Pick(r, []string{"disconnect:A", "disconnect:B", "cut", "cut", "restart:B", "hide:A", "hide:B", "both-disconnect",
+				"stall-disconnect-cut:A", "stall-disconnect-cut:B", "stall-cut"}),
 			Gap:  time.Duration(vc.Pick(r, []int{0, 20, 100, 400, 600, 1200, 2500})) * time.Millisecond})
 	}
 	return sc
@@ -207,6 +208,23 @@ func runPair(sc *PairScn) (res pairResult) {
 		case "cut":
 			nw.Proxy(a, b).Cut()
 			nw.Proxy(b, a).Cut()
+		case "stall-disconnect-cut:A", "stall-disconnect-cut:B", "stall-cut":
+			// the network goes silent (nothing is delivered, nothing is refused), an application disconnects
+			// into the silence, then the connection is reset and the network is back
+			pa, pb := nw.Proxy(a, b), nw.Proxy(b, a)
+			pa.Freeze()
+			pb.Freeze()
+			switch d.Kind {
+			case "stall-disconnect-cut:A":
+				a.Disconnect(b.SKI)
+			case "stall-disconnect-cut:B":
+				b.Disconnect(a.SKI)
+			}
+			time.Sleep(vc.Pick(vc.NewRand(uint64(d.Gap), "stall", 0), []time.Duration{20, 100, 300, 450, 700}) * time.Millisecond)
+			pa.Cut()
+			pb.Cut()
+			pa.Unfreeze()
+			pb.Unfreeze()
 		case "restart:B":
 			b.Restart()
 			b.App.Echo.Store(true)
